@@ -489,6 +489,12 @@ func (b *stepBuilder) buildStep(
 		}
 	}
 
+	// A step must end up with something to execute.
+	if step.Command == "" && step.CmdWithArgs == "" && step.Script == "" &&
+		step.SubWorkflow == nil && step.ExecutorConfig.Type == "" {
+		return nil, errStepCommandIsEmpty
+	}
+
 	return step, nil
 }
 
